@@ -71,6 +71,22 @@ def nontrivial(doc):
 
 
 # ---------------- C14 ----------------
+def leader_sweep():
+    """one character for every UTF-8 leader byte (C2..DF, E0..EF, F0..F4)"""
+    out = []
+    for lead in range(0xC2, 0xE0):
+        out.append(chr(((lead - 0xC0) << 6) | 0x25))
+    for lead in range(0xE0, 0xF0):
+        out.append(chr(((lead - 0xE0) << 12) | (0x0923 if lead == 0xE0 else 0x0123)))
+    for lead in range(0xF0, 0xF5):
+        out.append(chr(((lead - 0xF0) << 18) | (0x10123 if lead == 0xF0 else 0x0123)))
+    assert all(c.encode()[0] == l for c, l in zip(out, list(range(0xC2, 0xE0)) + list(range(0xE0, 0xF0)) + list(range(0xF0, 0xF5))))
+    return out
+
+
+SWEEP = leader_sweep()
+
+
 def c14_cases(tier, rng):
     L = 5 if tier == "quick" else 7
     ds = list(docs(L if tier == "quick" else 6))
@@ -79,6 +95,12 @@ def c14_cases(tier, rng):
     for _ in range(n_long):
         n = rng.randint(8, 120)
         ds.append("".join(rng.choice(ALPHA + ["b", " ", "\n"]) for _ in range(n)))
+    # every UTF-8 leader byte: the width table is keyed on it
+    for ch in SWEEP:
+        ds.append(f"a{ch}b{ch}{ch}\n{ch}c{ch}\r\n{ch}")
+    for _ in range(60 if tier == "quick" else 1000):
+        n = rng.randint(4, 40)
+        ds.append("".join(rng.choice(SWEEP + ["a", "\n", " "]) for _ in range(n)))
     return ds
 
 
@@ -188,6 +210,25 @@ def run_c13(res, tier, seed):
             for (el, ec) in grid:
                 reqs.append(f"edit\t{h}\t{sl}\t{sc}\t{el}\t{ec}\t78")
                 exp.append(None)
+    # columns near the top of the u32 range on every existing line (LSP: beyond the line end = the line end)
+    for d in docs(3 if tier == "quick" else 4):
+        h = hexs(d)
+        s = strip_cr(d)
+        b = boundaries(s)
+        nlines = b[-1][1] + 1
+        for l in range(nlines):
+            on_line = [(off, c) for (off, ll, c) in b if ll == l]
+            end_off = max(off for off, _ in on_line)
+            for (off0, c0) in on_line:
+                for big in (4294967295, 4294967294, 2147483648, 4294967295 - off0, 4294967296 - off0 - 1, 4294967295 - len(s.encode()), 65536):
+                    if big <= max(c for _, c in on_line):
+                        continue
+                    reqs.append(f"edit\t{h}\t{l}\t{c0}\t{l}\t{big}\t78")
+                    new = s.encode()[:off0] + b"x" + s.encode()[end_off:]
+                    exp.append("ok " + new.hex())
+                    reqs.append(f"edit\t{h}\t{l}\t{big}\t{l}\t{big}\t78")
+                    new = s.encode()[:end_off] + b"x" + s.encode()[end_off:]
+                    exp.append("ok " + new.hex())
     # full-text replacement
     for ins in ins_strings(3):
         reqs.append(f"editfull\t61\t{hexs(ins)}")
@@ -207,7 +248,8 @@ def run_c13(res, tier, seed):
     clients = []
     for _ in range(nseq):
         n = rng.randint(0, 30)
-        clients.append("".join(rng.choice(ALPHA + ["b", " "]) for _ in range(n)))
+        pool = ALPHA + ["b", " "] + (SWEEP if rng.random() < 0.3 else [])
+        clients.append("".join(rng.choice(pool) for _ in range(n)))
     servers = [strip_cr(c) for c in clients]
     alive = list(range(nseq))
     seq_evals = 0
